@@ -5,7 +5,7 @@ import common
 import xh
 
 HARNESS = os.path.join(os.path.dirname(__file__), "harness", "h_c01.py")
-NCONSTRAINTS = 16
+NCONSTRAINTS = 17
 
 
 def keyfn(r):
@@ -19,6 +19,8 @@ def keyfn(r):
         cls = "solution-open"
     elif "not a derivation tree" in err or "not in the grammar" in err:
         cls = "solution-invalid"
+    elif "although no timeout is configured" in err:
+        return ("solve/unsat-support/timeout-leak", err[:500])
     elif " raised " in err:
         exc = err.split(" raised ")[1]
         cls = "raises-" + exc.split(":")[0] + ":" + "_".join(exc.split(":", 1)[1].split()[:6]) if ":" in exc else "raises-" + exc[:30]
@@ -42,9 +44,14 @@ def configs(tier, mode, pid):
         sets, nsol, lim, to = "1=0,1,2;2=0,2;3=0,1;4=0,1;5=1,2,4,7;6=0,1;7=0,1", "8", "25", 3500
     cfgs = []
     for ci, opt in ((c, o) for c in range(NCONSTRAINTS) for o in (0, 1)):
+        if mode == "c01" and ci in (16,):
+            continue      # exception-contract only (see harness)
         my_sets = sets
         if tier == "quick" and ci in (2, 4, 8):      # slow constraints: one instantiation-limit setting in the quick tier
             my_sets = sets.replace("1=0,2;2=0,2", "1=0;2=0")
+        if (tier == "quick" and ci in (2, 7, 8, 10)) or mode == "c02":
+            # unsat support makes these constraints exceed the wall-clock guard; C02 has dedicated unsat-support obligations
+            my_sets = my_sets.replace("7=0,1", "7=0")
         cfgs.append(dict(tag="c%d.opt%d" % (ci, opt), env={"VERIF_FIX": "0=%d,3=%d" % (ci, opt), "VERIF_SETS": my_sets, "VERIF_NSOL": nsol, "VERIF_CALL_LIMIT": lim,
                                                 "VERIF_MODE": mode, "VERIF_IGNORED_LOG": log}, only=["solve"], timeout=to))
     return cfgs, log, sets, nsol
